@@ -346,7 +346,7 @@ func (p c05) Exec(c *sim.Case, env *Env) []sim.Violation {
 			return fail("nil-on-fault", "overwrite-existing:trailing-bytes", fmt.Sprintf("Save over an existing longer file returned nil but the file (%d bytes) does not end with the end-of-central-directory record of the new package (%d bytes)", len(got), L))
 		}
 	}
-	nilOK, errs := 0, 0
+	nilOK, errs, retries := 0, 0, 0
 	for _, n := range offsets {
 		if c.C("target") == 1 {
 			_ = os.WriteFile(target, older, 0o644) // an earlier, longer version of the package is in the way
@@ -377,6 +377,34 @@ func (p c05) Exec(c *sim.Case, env *Env) []sim.Violation {
 			if n >= L {
 				return fail("spurious-error", "error-without-fault", fmt.Sprintf("limit %d >= output length %d yet Save failed: %v", n, L, serr))
 			}
+			// the caller's natural reaction to a failed Save is to free space and save again, to the same path: that second,
+			// fault-free Save must leave the faithful file (every 16th offset, and always for a pinned case)
+			if c.C("offset_set") != 0 || retries%16 == 0 {
+				var rerr error
+				sig, pn := Guard(func() { rerr = d.Save(target) })
+				env.Stats.Probe("evaluations")
+				env.Stats.Probe("retries_after_failed_save")
+				pin := func() {
+					if c.C("offset_set") == 0 {
+						c.Cfg["offset_set"], c.Cfg["offset"], c.Cfg["clamp"] = 1, int(n), 1
+					}
+				}
+				if pn {
+					pin()
+					return fail("panic", sig, "Save after a failed Save panicked")
+				}
+				if rerr != nil {
+					pin()
+					return fail("spurious-error", "retry-after-failed-save", fmt.Sprintf("after a Save that failed at byte %d, a fault-free Save to the same path fails: %v", n, rerr))
+				}
+				got2, _ := os.ReadFile(target)
+				now2, _ := d.ToBytes()
+				if ok, why := sameParts(got2, now2); !ok {
+					pin()
+					return fail("nil-on-fault", "retry-after-failed-save:"+map[bool]string{true: "readable-but-different", false: "damaged-file"}[readable(got2)], fmt.Sprintf("a Save failed at byte %d of %d (reported); the retried Save to the same path returned nil but the file (%d bytes) is not the package: %s", n, L, len(got2), why))
+				}
+			}
+			retries++
 			continue
 		}
 		nilOK++
@@ -506,6 +534,26 @@ func (c05) callFaults(c *sim.Case, d *document.Document, dir string, env *Env) *
 			env.Stats.Probe("call_fault_survived_faithfully")
 		} else {
 			env.Stats.Probe("call_fault_reported")
+		}
+		// the caller frees space / fixes permissions and saves again to the same path
+		if serr != nil {
+			var rerr error
+			sig, pn = Guard(func() { rerr = d.Save(target) })
+			env.Stats.Probe("retries_after_failed_save")
+			if pn {
+				pin()
+				return &sim.Violation{Clause: "panic", Sig: sig, Detail: fmt.Sprintf("Save retried after a failed %s call panicked", fired)}
+			}
+			if rerr != nil {
+				pin()
+				return &sim.Violation{Clause: "spurious-error", Sig: "retry-after-failed-save", Detail: fmt.Sprintf("after a Save whose %s call failed, a fault-free Save to the same path fails: %v", fired, rerr)}
+			}
+			got, _ := os.ReadFile(target)
+			now, _ := d.ToBytes()
+			if ok, why := sameParts(got, now); !ok {
+				pin()
+				return &sim.Violation{Clause: "nil-on-fault", Sig: "retry-after-failed-save:" + fired, Detail: fmt.Sprintf("call %d (%s) of Save failed and was reported; the retried Save to the same path returned nil but the file is not the package: %s", pt.idx, fired, why)}
+			}
 		}
 		// the document is as usable as before
 		after := filepath.Join(dir, "calls", "after.docx")
